@@ -13,7 +13,9 @@
 (*     addSamplerMutex_ and hands the states to every other tree's sampler:     *)
 (*     setStatesToSample() frees the old queue and pushes COPIES, under that    *)
 (*     sampler's statesLock_.                                                   *)
-(* FixIter = TRUE: the walk over samplers_ happens under addSamplerMutex_.      *)
+(* FixIter = TRUE: the walk over samplers_ (including the setStatesToSample()   *)
+(* calls) happens under addSamplerMutex_ (std::lock_guard for the rest of       *)
+(* newSolutionFound()) - the library's correction.                              *)
 EXTENDS Naturals, FiniteSets, Sequences, TLC
 
 CONSTANTS Trees, MaxCost, FixIter
@@ -79,10 +81,11 @@ AfterCompare(t) == /\ pc[t] = "afterCompare"
 LockAIter(t) == /\ pc[t] = "lockAIter" /\ A = None /\ A' = t /\ Goto(t, "iterate")
                 /\ UNCHANGED <<best, N, SLk, samplers, growing, queue, nextId, freed, sawNonEmpty, cost, todo, share, ptc, popped>>
 Iterate(t) == /\ pc[t] = "iterate" /\ todo' = [todo EXCEPT ![t] = samplers \ {t}]
-              /\ A' = (IF FixIter THEN None ELSE A) /\ Goto(t, "nextSampler")
-              /\ UNCHANGED <<best, N, SLk, samplers, growing, queue, nextId, freed, sawNonEmpty, cost, share, ptc, popped>>
+              /\ Goto(t, "nextSampler")
+              /\ UNCHANGED <<best, A, N, SLk, samplers, growing, queue, nextId, freed, sawNonEmpty, cost, share, ptc, popped>>
 NextSampler(t) == /\ pc[t] = "nextSampler" /\ Goto(t, IF todo[t] = {} THEN "loop" ELSE "lockSet")
-                  /\ UNCHANGED <<best, A, N, SLk, samplers, growing, queue, nextId, freed, sawNonEmpty, cost, todo, share, ptc, popped>>
+                  /\ A' = (IF FixIter /\ todo[t] = {} THEN None ELSE A)        \* end of newSolutionFound(): the guard goes
+                  /\ UNCHANGED <<best, N, SLk, samplers, growing, queue, nextId, freed, sawNonEmpty, cost, todo, share, ptc, popped>>
 Target(t) == CHOOSE u \in todo[t] : \A v \in todo[t] : u <= v
 LockSet(t) == /\ pc[t] = "lockSet" /\ SLk[Target(t)] = None /\ SLk' = [SLk EXCEPT ![Target(t)] = t] /\ Goto(t, "set")
               /\ UNCHANGED <<best, A, N, samplers, growing, queue, nextId, freed, sawNonEmpty, cost, todo, share, ptc, popped>>
@@ -109,6 +112,7 @@ QueuesOwnTheirStates == /\ \A t \in Trees : queue[t] \cap freed = {}
 (* getNextSample() never meets an empty queue although the emptiness check was made without the lock *)
 PopNeverEmpty == \A t \in Trees : pc[t] = "pop" => queue[t] # {}
 LocksHeld == \A t \in Trees : /\ pc[t] \in {"push1", "push2"} => A = t
+                              /\ (FixIter /\ pc[t] \in {"iterate", "nextSampler", "lockSet", "set"}) => A = t
                               /\ pc[t] = "compare" => N = t
                               /\ pc[t] = "pop" => SLk[t] = t
                               /\ pc[t] = "set" => SLk[Target(t)] = t
